@@ -71,8 +71,18 @@ claim("C12",
       "supported); counterexamples are replayed as real header bytes through the real constructor.",
       TRUST, "symbolic execution of the constructors + z3 implication 'accepted => supported'", "4.12")
 
+claim("C08",
+      "Three solver-decided lemmas: (1) every reader's _read meets the back-end contract, including requests that run past "
+      "the end of the disk; (2) one step of the real AlignedStream (read/peek/seek/readoffset, any argument) from an "
+      "arbitrary valid state over any contract-conforming back-end returns the right slice, advances the position, "
+      "re-establishes the state invariant and only calls the back-end inside its contract; (3) an arbitrary earlier "
+      "request with the real lru_cache/cached_property in place does not change a later result (VHDX, QCOW2). Histories "
+      "of any length follow by induction (written).",
+      TRUST + "; the composition of the lemmas is a written argument", "symbolic execution of dissect.util.stream."
+      "AlignedStream and the readers + z3", "4.8")
+
 PENDING = "check not built yet in this round (planned: see DESIGN.md section 4)"
-for _p in ( "C08", "C09", "C10", "C11", "C13", "C14", "C15", "C17", "C20"):
+for _p in ( "C09", "C10", "C11", "C13", "C14", "C15", "C17", "C20"):
     NOT_APPLICABLE[_p] = PENDING
 NOT_APPLICABLE["C16"] = ("the property's content (cstruct writers, AES-GCM, PBKDF2) sits behind C boundaries that would have "
                          "to be stubbed; nothing of the repository's own arithmetic would remain to be decided (DESIGN 5)")
